@@ -81,7 +81,7 @@ type lenSim struct {
 	stores   map[string][]lform // tracked field name -> forms stored (deltas for accumulations)
 	storePos map[string]string
 	accum    map[string]bool // tracked field -> its store adds to the old value
-	writes   []string // slice identities written to the sink, in program order
+	writes   []string        // slice identities written to the sink, in program order
 	depth    int
 }
 
@@ -749,6 +749,9 @@ func checkC02(c *Ctx) {
 	runWHChild(c, "WH-child")
 	runWHGroups(c, "WH-groups")
 	runWHReset(c, "WH-reset")
+	// the footer's leaves: physical/converted type per Go type, the leaf's own repetition
+	checkTypeFuncs(c)
+	laMaxLevels(c, "LA-maxlevels")
 	// schema inputs over the corpus
 	res, desc, exhaustive := runCorpusFor(c, false)
 	if res != nil {
@@ -798,7 +801,9 @@ func laOffset(c *Ctx, rule string) {
 			}
 			// contains: v keeps the accumulator — it is the accumulator itself, a sum with it, a phi all of whose incoming
 			// values keep it (nested loops), or the result of a helper that returns its argument advanced
-			contains := func(v ssa.Value, isSelf func(ssa.Value) bool) bool { return keepsAccumulator(u, v, isSelf, map[ssa.Value]bool{}, 0) }
+			contains := func(v ssa.Value, isSelf func(ssa.Value) bool) bool {
+				return keepsAccumulator(u, v, isSelf, map[ssa.Value]bool{}, 0)
+			}
 			spine = func(v ssa.Value, depth int) {
 				if depth > 10 || seen[v] {
 					return
